@@ -106,6 +106,8 @@ class Sim(object):
         self.in_low = None  # device index whose low-level notification is being delivered
         self.churn_inside_happened = False
         self.churn_log = []
+        self.stray = []
+        self.current_params = None
 
     # device side ------------------------------------------------------
     def device(self, kind, args):
@@ -163,12 +165,12 @@ class Sim(object):
         self.churn_log.append([obs.oid, act, tgt.oid, msg_type, e])
         if act.startswith("detach"):
             self.seq().detach(tgt)
-            self.model_detach(tgt, e)
+            self.model_detach(tgt, e, inside=True)
         elif act.startswith("reattach"):
             # two opposite membership changes for one listener inside one delivery
             self.probes["opposite_changes_in_one_delivery"] += 1
             self.seq().detach(tgt)
-            self.model_detach(tgt, e)
+            self.model_detach(tgt, e, inside=True)
             self.seq().attach(tgt)
             self.model_attach(tgt, e)
         elif act == "flicker_new":
@@ -176,7 +178,7 @@ class Sim(object):
             self.seq().attach(tgt)
             self.model_attach(tgt, e)
             self.seq().detach(tgt)
-            self.model_detach(tgt, e)
+            self.model_detach(tgt, e, inside=True)
         else:
             self.seq().attach(tgt)
             self.model_attach(tgt, e)
@@ -188,10 +190,11 @@ class Sim(object):
         if during_event is not None:
             obs.opt.add(during_event)
 
-    def model_detach(self, obs, during_event=None):
+    def model_detach(self, obs, during_event=None, inside=False):
         if obs.oid not in self.model_attached:
             return
         self.model_attached.remove(obs.oid)
+        obs.inflight_ok = self.current_params if inside else None
         if during_event is not None and obs.req and obs.req[-1] == during_event:
             obs.req.pop()
             obs.opt.add(during_event)
@@ -212,6 +215,7 @@ def _make_obs_class():
             self.opt = set()
             self.nnotif = 0
             self.armed = None
+            self.inflight_ok = None  # the message object that was being delivered when this observer was detached/attached
             self.high = collections.Counter()
 
         def _rec(self, kind, args):
@@ -234,6 +238,11 @@ def _make_obs_class():
             self._rec("sleep", (seconds,))
 
         def notify(self, msg_type, params):
+            sim = self.sim
+            sim.current_params = params
+            if self.oid not in sim.model_attached and params is not self.inflight_ok:
+                # detached (or never attached) and this is not the message during which that happened
+                sim.stray.append((self.oid, msg_type, len(sim.dev) - 1))
             SequencerObserver.notify(self, msg_type, params)
             if msg_type not in LOW:
                 self.high[msg_type] += 1
@@ -804,6 +813,9 @@ class Exec(object):
         if not sim.observers:
             return
         self.clauses["C18.observers"] += 1
+        if sim.stray:
+            oid, mt, e = sim.stray[0]
+            self.fail("C18.observers", "observer %d was sent message type %d (after device event #%d) although it was detached before that message (%d such deliveries); churn=%s" % (oid, mt, e, len(sim.stray), sim.churn_log[:3]), kind="after_detach", churn_inside=sim.churn_inside_happened, low_level=mt in LOW)
         for o in sim.observers:
             idxs = [g[0] for g in o.got]
             feats = {"churn_inside": sim.churn_inside_happened}
@@ -881,6 +893,8 @@ def _gen_entries(rng, syms, channel, rest_p, lead_rest, bpm_p, empty_nc_p=0.1):
             e = {"notes": None, "v": sym}
             if rng.random() < empty_nc_p:
                 e["empty_nc"] = True
+                if rng.random() < max(bpm_p, 0.15) and bpm_p > 0:
+                    e["bpm"] = rng.choice([30, 60, 90, 121, 240, rng.randrange(20, 401)])  # a tempo mark on a silent beat
         else:
             e = {"notes": world.gen_chord(rng, channel), "v": sym}
             if rng.random() < bpm_p:
@@ -1063,7 +1077,10 @@ def generate(rng, prop, tier):
             ops.append({"op": "play_comp", "comp": c, "chs": None if rng.random() < 0.5 else rng.sample(range(16), nv), "bpm": bpm()})
         else:
             churn_inside()
-            ops.append({"op": "play_tracks", "tracks": tidx, "chs": rng.sample(range(16), nv), "bpm": bpm()})
+            chs = rng.sample(range(16), nv)
+            if nv > 1 and rng.random() < 0.3:
+                chs[rng.randrange(1, nv)] = chs[0]  # two tracks announced on the same channel
+            ops.append({"op": "play_tracks", "tracks": tidx, "chs": chs, "bpm": bpm()})
 
     plan = cfg["plan"]
     if plan == "solo":
